@@ -4,6 +4,13 @@ import DFV.Lemmas.C19Demag
 import DFV.Lemmas.C19Conv
 import DFV.Lemmas.C19Real
 import DFV.Lemmas.C19Examples
+import DFV.Lemmas.C19Quarter
+import DFV.Lemmas.C19QuarterC12
+import DFV.Lemmas.C19Fourier
+import DFV.Lemmas.C19Bps
+import DFV.Lemmas.C19Angle
+import DFV.Lemmas.C19BLReal
+import DFV.Lemmas.C19Cuboid
 /-!
 # C19 — topological and demagnetisation tools obey their physical invariances
 
@@ -696,5 +703,476 @@ hold for the real arccosine and square root. -/
 theorem leaf_hypotheses_real (x s : ℝ) (hs : 0 ≤ s) (hx : 0 ≤ x) :
     (0 ≤ Real.arccos x ∧ Real.arccos x ≤ Real.pi) ∧ √(s * s * x) = s * √x ∧ √x * √x = x :=
   ⟨arccos_range x, sqrt_homogeneous s x hs, sqrt_squares_back x hx⟩
+
+/-! ## Quarter turn of the sample -/
+
+/-- `Field.diff` along the axes of a quarter-turned sample (`SpTurn f g`: cell `[i, j]` of `g` holds
+cell `[j, n₁−1−i]` of `f`): `∂₀' = −∂₁` and `∂₁' = ∂₀` at the source cell — every validity mask, open
+or periodic directions, restricted to valid cells or not. -/
+theorem diff_quarter_turn {f g : Fld} (h : SpTurn f g) (r : Bool) (i j : Nat) (hi : i < f.mesh.nAt 1) (hj : j < f.mesh.nAt 0) :
+    Dv g 0 1 r [i, j] = (Dv f 1 1 r [j, f.mesh.nAt 1 - 1 - i]).neg ∧
+    Dv g 1 1 r [i, j] = Dv f 0 1 r [j, f.mesh.nAt 1 - 1 - i] :=
+  ⟨Dv_turn0 h r i j hi hj, Dv_turn1 h r i j hi hj⟩
+
+/-- Lattice method, the triangle sum: the neighbours `(E, N, W, S)` of a cell of the turned sample are
+the neighbours `(S, E, N, W)` of the source cell, so its list of Berg–Lüscher triangles is the source
+cell's list `[t₁, t₂, t₃, t₄]` (those that exist) rotated to `[t₄, t₁, t₂, t₃]` — every mask. -/
+theorem bl_triangles_quarter_turn {o g : Fld} (h : SpTurn o g) (i j : Nat) (hi : i < o.mesh.nAt 1) (hj : j < o.mesh.nAt 0) :
+    triangles g i j
+      = tri? (cellV o [j, o.mesh.nAt 1 - 1 - i]) (nbS o j (o.mesh.nAt 1 - 1 - i)) (nbE o j (o.mesh.nAt 1 - 1 - i)) ++
+        (tri? (cellV o [j, o.mesh.nAt 1 - 1 - i]) (nbE o j (o.mesh.nAt 1 - 1 - i)) (nbN o j (o.mesh.nAt 1 - 1 - i)) ++
+         tri? (cellV o [j, o.mesh.nAt 1 - 1 - i]) (nbN o j (o.mesh.nAt 1 - 1 - i)) (nbW o j (o.mesh.nAt 1 - 1 - i)) ++
+         tri? (cellV o [j, o.mesh.nAt 1 - 1 - i]) (nbW o j (o.mesh.nAt 1 - 1 - i)) (nbS o j (o.mesh.nAt 1 - 1 - i))) :=
+  triangles_turn h i j hi hj
+
+/-- Both density methods under a quarter turn of the sample (`QTurn Q f g`: sample turned, vectors
+rotated by the proper rotation `Q`): the density field of `g` holds at `[i, j]` the value and the
+validity the density field of `f` holds at `[j, n₁−1−i]` — all masks, all cell sizes, open or periodic. -/
+theorem tcd_quarter_turn (sq : Rat → Rat) (pi : Rat) (Om : Tri → Rat) (Q : M3) (hQ : Q.IsRot) {f g : Fld} (h : QTurn Q f g)
+    (hf3 : f.nvdim = 3) (hg3 : g.nvdim = 3) (hf2 : f.mesh.ndim = 2) (hg2 : g.mesh.ndim = 2) (m : Method) (hm : m ≠ .other) :
+    ∃ q q', tcd sq pi Om f m = .ok q ∧ tcd sq pi Om g m = .ok q' ∧
+      ∀ i j, i < f.mesh.nAt 1 → j < f.mesh.nAt 0 →
+        (q'.data.get [i, j]).getD 0 0 = (q.data.get [j, f.mesh.nAt 1 - 1 - i]).getD 0 0 ∧
+        q'.valid.get [i, j] = q.valid.get [j, f.mesh.nAt 1 - 1 - i] := by
+  refine ⟨_, _, tcd_succeeds sq pi Om f m hf3 hf2 hm, tcd_succeeds sq pi Om g m hg3 hg2 hm, ?_⟩
+  intro i j hi hj
+  exact ⟨tcdVal_turn sq pi Om Q hQ h m i j hi hj, h.ok i j hi hj⟩
+
+/-- THE CHARGE IS UNCHANGED BY A QUARTER TURN OF THE SAMPLE — both methods, absolute or not, every
+validity mask, anisotropic cells, open or periodic directions (flags turned with the sample). -/
+theorem charge_quarter_turn (sq : Rat → Rat) (pi : Rat) (Om : Tri → Rat) (Q : M3) (hQ : Q.IsRot) {f g : Fld} (h : QTurn Q f g)
+    (hf3 : f.nvdim = 3) (hg3 : g.nvdim = 3) (hf2 : f.mesh.ndim = 2) (hg2 : g.mesh.ndim = 2)
+    (hfs : f.data.shape = [f.mesh.nAt 0, f.mesh.nAt 1]) (hgs : g.data.shape = [g.mesh.nAt 0, g.mesh.nAt 1])
+    (m : Method) (a : Bool) : charge sq pi Om g m a = charge sq pi Om f m a :=
+  charge_turn sq pi Om Q hQ h hf3 hg3 hf2 hg2 hfs hgs m a
+
+/-- a quarter-turned pair: `fQ` (cell `(i,j)` holds `(i, j+1, 2)` on 4 × 3 cells of size 1 × 2) and the
+field on 3 × 4 cells of size 2 × 1 holding `(−(j'+1), i', 2)` at the turned position -/
+example : QTurn ⟨0, -1, 0, 1, 0, 0, 0, 0, 1⟩ fQ
+    { mesh := { region := { pmin := [0, 0], pmax := [6, 4], dims := ["x", "y"], units := ["m", "m"], tol := 1 / 1000000000000 },
+                n := [3, 4], bc := "", subs := [] },
+      nvdim := 3, data := ⟨[3, 4], fun i => [-(((3 - 1 - i.getD 0 0 : Nat) : Rat) + 1), (i.getD 1 0 : Rat), 2]⟩,
+      valid := NDA.const [3, 4] true, vdims := some ["x", "y", "z"], vmap := [("x", "x"), ("y", "y")], unit := none } := by
+  refine ⟨rfl, rfl, ?_, ?_, rfl, rfl, ?_, ?_⟩
+  · simp [Mesh.cellAt, Region.edge, Region.hi, Region.lo, Mesh.nAt, rotF, fQ, mEx]
+  · simp [Mesh.cellAt, Region.edge, Region.hi, Region.lo, Mesh.nAt, rotF, fQ, mEx]
+  · intro i j _ _
+    simp [cellV, rotF, fQ, mEx, Mesh.nAt, V3.ofList, M3.mulVec, V3.toList, NDA.map]
+  · intro i j _ _
+    rfl
+
+/-- `Field.rotate90` (C12's model `T.rotate90F`) by `k ≡ 1 (mod 4)` in the plane of the two axes of a
+2-d three-component field (open boundaries; the two axes mapped to two different components) leaves
+the topological charge unchanged — both methods, absolute or not, every mask, anisotropic cells,
+any reference point, copying or in-place form. -/
+theorem charge_rotate90 (sq : Rat → Rat) (pi : Rat) (Om : Tri → Rat) (f recv g : Fld) (a1 a2 : String) (k : Int)
+    (ref : Option (List Rat)) (b : Bool)
+    (hf : T.FldInv f) (h2 : f.mesh.ndim = 2) (h3 : f.nvdim = 3) (hlen : ∀ i, (f.data.get i).length = 3)
+    (hbc : f.mesh.bc = "")
+    (hi1 : f.mesh.region.dim2index a1 = .ok 0) (hi2 : f.mesh.region.dim2index a2 = .ok 1) (hk : k % 4 = 1)
+    (hvd : ∀ vs, f.vdims = some vs → vs.length = 3)
+    (hc : (f.rDim a1).bind f.vdimIndex ≠ (f.rDim a2).bind f.vdimIndex)
+    (h : T.rotate90F f a1 a2 k ref b = .ok (recv, g)) (m : Method) (a : Bool) :
+    charge sq pi Om g m a = charge sq pi Om f m a := by
+  obtain ⟨Q, hQ, hT, g3, g2, gs⟩ := rotate90F_turn f recv g a1 a2 k ref b hf h2 h3 hlen hbc hi1 hi2 hk hvd hc h
+  have hfs : f.data.shape = [f.mesh.nAt 0, f.mesh.nAt 1] := by rw [hf.2.1]; exact n_eq2 f.mesh hf.1 h2
+  exact charge_turn sq pi Om Q hQ hT h3 g3 h2 g2 hfs gs m a
+
+/-- the hypotheses of `charge_rotate90` on the concrete field `fQ`, `rotate90('x', 'y')` -/
+example : T.FldInv fQ ∧ fQ.mesh.ndim = 2 ∧ fQ.nvdim = 3 ∧ (∀ i, (fQ.data.get i).length = 3) ∧ fQ.mesh.bc = "" ∧
+    fQ.mesh.region.dim2index "x" = .ok 0 ∧ fQ.mesh.region.dim2index "y" = .ok 1 ∧ (1 : Int) % 4 = 1 ∧
+    (∀ vs, fQ.vdims = some vs → vs.length = 3) ∧
+    (fQ.rDim "x").bind fQ.vdimIndex ≠ (fQ.rDim "y").bind fQ.vdimIndex ∧
+    (match T.rotate90F fQ "x" "y" 1 none false with | .ok _ => true | .error _ => false) = true := by
+  refine ⟨⟨?_, rfl, rfl⟩, rfl, rfl, fun _ => rfl, rfl, by decide +kernel, by decide +kernel, by decide,
+    ?_, by decide +kernel, by decide +kernel⟩
+  · have : mEx.invB = true := by decide +kernel
+    refine ⟨⟨by decide, rfl, rfl, rfl, by decide, ?_⟩, rfl, ?_⟩
+    · intro a ha
+      have : a = 0 ∨ a = 1 := by simp [fQ, mEx] at ha; omega
+      rcases this with rfl | rfl <;> simp [fQ, mEx, Region.lo, Region.hi]
+    · intro a ha
+      have : a = 0 ∨ a = 1 := by simp [fQ, mEx, Mesh.ndim, Region.ndim] at ha; omega
+      rcases this with rfl | rfl <;> simp [fQ, mEx, Mesh.nAt]
+  · intro vs hvs
+    simp only [fQ] at hvs
+    injection hvs with hvs
+    rw [← hvs]; rfl
+
+/-! ## The trace of the demagnetisation tensor in Fourier space -/
+
+/-- A tensor field whose real-space trace is `t·δ_{r0}` (first three components add up to `t` in
+cell `r0`, to `0` elsewhere) has Fourier-space trace `t·exp(−2πi k·r0)` in EVERY k-cell, for
+`Field.fftn` as modelled in C11 over any commutative ring with roots of unity: the trace is linear,
+and the transform of a one-cell field is a pure phase (`C11.fftn_is_dft`). -/
+theorem fourier_trace_of_real_space_trace {R : Type} [CommRing R] (ρs : List (C11.Root R)) (f g : C11.CF R)
+    (h : C11.fftn ρs f = .ok g) (hρ : C11.Roots f.data.shape ρs) (hnv : 3 ≤ f.nvdim) (r0 : List Nat)
+    (hr : inRange f.data.shape r0 = true) (t : R)
+    (hT : ∀ i, inRange f.data.shape i = true →
+      C11.compA f.data 0 i + C11.compA f.data 1 i + C11.compA f.data 2 i = if i = r0 then t else 0)
+    (m : List Nat) (hm : inRange f.data.shape m = true) :
+    C11.compA g.data 0 m + C11.compA g.data 1 m + C11.compA g.data 2 m = t * C11.phase ρs f.data.shape m r0 :=
+  fourier_trace_of_delta ρs f g h hρ hnv r0 hr t hT m hm
+
+/-- TRACE −1 AT EVERY FREQUENCY.  The model's real-space tensor of `demag_tensor(mesh)` (symbolic
+Newell terms at the `linspace` points, evaluated with the real `arcsinh`, `arctan`, `sqrt`),
+transformed by C11's `Field.fftn` with the complex roots of unity, has in every k-cell the trace
+`−(π/pi)·exp(−2πi k·r_c)` (`r_c` = the central cell of the `2n−1` grid, `pi` the rational the code
+uses for `np.pi`): a pure phase of modulus `π/|pi|` — all positive rational cell edges, all counts.
+The transform is accepted (first part). -/
+theorem demag_trace_fourier (pi : Rat) (hpi : pi ≠ 0) (m tm : Mesh) (hm : m.Inv) (h3 : m.ndim = 3)
+    (htm : tensorMesh m = .ok tm) :
+    (∃ g, C11.fftn ((tensorShape m).map C11.cRoot) (tensorC pi m tm) = .ok g) ∧
+    ∀ g, C11.fftn ((tensorShape m).map C11.cRoot) (tensorC pi m tm) = .ok g →
+      ∀ k, inRange (tensorShape m) k = true →
+        C11.compA g.data 0 k + C11.compA g.data 1 k + C11.compA g.data 2 k
+          = -(((Real.pi / (pi : ℝ) : ℝ)) : ℂ) * C11.phase ((tensorShape m).map C11.cRoot) (tensorShape m) k (centreCell m) ∧
+        ‖C11.compA g.data 0 k + C11.compA g.data 1 k + C11.compA g.data 2 k‖ = Real.pi / |(pi : ℝ)| := by
+  constructor
+  · obtain ⟨g, hg, _⟩ := C11.fftn_total ((tensorShape m).map C11.cRoot) (tensorC pi m tm) (tensorC_inv pi m tm hm h3 htm)
+    exact ⟨g, hg⟩
+  · intro g hg k hk
+    exact tensorC_fourier_trace pi hpi m tm hm h3 g hg k hk
+
+/-- the real-space trace of that tensor field, cell by cell of the displacement grid -/
+theorem demag_trace_grid (pi : Rat) (hpi : pi ≠ 0) (m tm : Mesh) (hm : m.Inv) (h3 : m.ndim = 3)
+    (i : List Nat) (hi : inRange (tensorShape m) i = true) :
+    C11.compA (tensorC pi m tm).data 0 i + C11.compA (tensorC pi m tm).data 1 i + C11.compA (tensorC pi m tm).data 2 i
+      = if i = centreCell m then -(((Real.pi / (pi : ℝ) : ℝ)) : ℂ) else 0 :=
+  tensorC_trace pi hpi m tm hm h3 i hi
+
+/-- a well-formed 3-d mesh (2 × 1 × 2 cells, edges 1, 2, 1/2) whose tensor mesh exists -/
+example : m3.Inv ∧ m3.ndim = 3 ∧ ∃ tm, tensorMesh m3 = .ok tm := by
+  have hi : m3.Inv := by
+    refine ⟨⟨by decide, rfl, rfl, rfl, by decide, ?_⟩, rfl, ?_⟩
+    · intro a ha
+      have : a = 0 ∨ a = 1 ∨ a = 2 := by simp [m3] at ha; omega
+      rcases this with rfl | rfl | rfl <;> simp [m3, Region.lo, Region.hi]
+    · intro a ha
+      have : a = 0 ∨ a = 1 ∨ a = 2 := by simp [m3, Mesh.ndim, Region.ndim] at ha; omega
+      rcases this with rfl | rfl | rfl <;> simp [m3, Mesh.nAt]
+  exact ⟨hi, rfl, _, tensorMesh_eq m3 hi⟩
+
+/-! ## Emergent field and Bloch-point count at object level -/
+
+/-- Reversing all vectors negates the emergent field (same mesh, same validity), and the emergent
+field of a uniform field vanishes identically. -/
+theorem emergent_reversal (f e : Fld) (h : emergent f = .ok e) :
+    (∃ e', emergent (negF f) = .ok e' ∧ e'.mesh = e.mesh ∧ e'.valid = e.valid ∧ e'.data.shape = e.data.shape ∧
+      ∀ i c, c < 3 → (e'.data.get i).getD c 0 = -(e.data.get i).getD c 0) ∧
+    (∀ v, uniformF f v → ∀ i, e.data.get i = [0, 0, 0]) := by
+  have h3 : f.nvdim = 3 := by
+    by_cases hc : f.nvdim = 3
+    · exact hc
+    · unfold emergent at h; rw [if_pos hc] at h; cases h
+  have hd : f.mesh.ndim = 3 := by
+    by_cases hc : f.mesh.ndim = 3
+    · exact hc
+    · unfold emergent at h; rw [if_neg (by simp [h3]), if_pos hc] at h; cases h
+  rw [emergent_eq f h3 hd] at h
+  injection h with h
+  subst h
+  constructor
+  · refine ⟨_, emergent_eq (negF f) h3 hd, rfl, rfl, rfl, ?_⟩
+    intro i c hc
+    show ([emSpec (negF f) 1 2 i, emSpec (negF f) 2 0 i, emSpec (negF f) 0 1 i] : List Rat).getD c 0
+      = -([emSpec f 1 2 i, emSpec f 2 0 i, emSpec f 0 1 i] : List Rat).getD c 0
+    rw [emSpec_negF, emSpec_negF, emSpec_negF]
+    rcases (by omega : c = 0 ∨ c = 1 ∨ c = 2) with rfl | rfl | rfl <;> simp
+  · intro v hu i
+    show [emSpec f 1 2 i, emSpec f 2 0 i, emSpec f 0 1 i] = [0, 0, 0]
+    rw [emSpec_uniform f v hu, emSpec_uniform f v hu, emSpec_uniform f v hu]
+
+/-- `count_bps` is unchanged by a global proper rotation of all vectors: the same result (cumulative
+flux, local numbers, total, head-to-head / tail-to-tail counts, pattern) or the same refusal —
+every direction, every mask, anisotropic cells. -/
+theorem count_bps_rot_invariant (sq : Rat → Rat) (pi : Rat) (q : M3) (hq : q.IsRot) (f : Fld) (dir : String) :
+    countBps sq pi (rotF q f) dir = countBps sq pi f dir :=
+  countBps_rotF sq pi q hq f dir
+
+/-- REVERSAL: when all vectors are reversed `count_bps` (every direction) negates the cumulative
+flux and the local Bloch-point numbers (`np.round` is odd), keeps the total number, and swaps the
+head-to-head and tail-to-tail counts — a tail-to-tail hedgehog becomes head-to-head. -/
+theorem count_bps_reversal (sq : Rat → Rat) (pi : Rat) (f : Fld) (dir : String) (r : BpResult)
+    (h : countBps sq pi f dir = .ok r) :
+    ∃ r', countBps sq pi (negF f) dir = .ok r' ∧ r'.fint = r.fint.map (-·) ∧ r'.number = r.number.map (-·) ∧
+      r'.total = r.total ∧ r'.hh = r.tt ∧ r'.tt = r.hh ∧ r'.pattern = r.pattern.map fun p => (-p.1, p.2) :=
+  countBps_negF sq pi f dir r h
+
+/-- `count_bps` accepts a concrete non-uniform field along `x` -/
+example : (match countBps ratSqrt 3 f3 "x" with | .ok _ => true | .error _ => false) = true := by
+  decide +kernel
+
+/-- Counting from the rounded cumulative flux alone: negating the flux negates the numbers, keeps
+the total and swaps head-to-head with tail-to-tail (any list, any `pi`). -/
+theorem bp_count_reversal (fint : List Rat) (pi : Rat) :
+    (bpOf (fint.map (-·)) pi).number = (bpOf fint pi).number.map (-·) ∧
+    (bpOf (fint.map (-·)) pi).total = (bpOf fint pi).total ∧
+    (bpOf (fint.map (-·)) pi).hh = (bpOf fint pi).tt ∧
+    (bpOf (fint.map (-·)) pi).tt = (bpOf fint pi).hh :=
+  ⟨(bpOf_neg fint pi).2.1, (bpOf_neg fint pi).2.2.1, (bpOf_neg fint pi).2.2.2.1, (bpOf_neg fint pi).2.2.2.2.1⟩
+
+/-! ## Neighbouring-cell angles at object level -/
+
+/-- ACCEPTANCE and RESULT: a 3-component field on a well-formed mesh with at least two cells along
+the named direction is accepted in either unit; the result is a scalar field, valid everywhere,
+on the mesh built by `df.Mesh(p1 = pmin + δ, p2 = pmax − δ, cell = mesh.cell)`, with one cell less
+along the direction, holding `acos(clip(û·v̂))` (`units = "rad"`) or `deg` of it. -/
+theorem angle_accepted (sq acos deg : Rat → Rat) (f : Fld) (dir units : String) (ax : Nat)
+    (h3 : f.nvdim = 3) (hm : f.mesh.Inv) (hax : indexOf? f.mesh.region.dims dir = some ax)
+    (hu : units = "rad" ∨ units = "deg") (h2 : 2 ≤ f.mesh.nAt ax) :
+    ∃ g m', neighbourAngle sq acos deg f dir units = .ok g ∧ angleMesh f.mesh ax = .ok m' ∧ g.mesh = m' ∧
+      g.nvdim = 1 ∧ g.data.shape = setAt f.mesh.n ax (f.mesh.nAt ax - 1) ∧ m'.n = setAt f.mesh.n ax (f.mesh.nAt ax - 1) ∧
+      (∀ i, g.valid.get i = true) ∧
+      ∀ i, g.data.get i = [if units = "deg" then deg (acos (nbDot sq f ax i)) else acos (nbDot sq f ax i)] :=
+  neighbourAngle_ok sq acos deg f dir units ax h3 hm hax hu h2
+
+/-- THE ANGLES LIVE ON A MESH ONE CELL SHORTER: whenever `neighbouring_cell_angle` succeeds on a
+well-formed mesh, the direction had at least two cells and the result mesh has one cell less along
+it, the same cell size on every axis, and its region is the original one shrunk by half a cell at
+both ends in that direction (unchanged on the other axes). -/
+theorem angle_result_mesh (sq acos deg : Rat → Rat) (f g : Fld) (dir units : String) (hm : f.mesh.Inv)
+    (h : neighbourAngle sq acos deg f dir units = .ok g) :
+    ∃ ax, indexOf? f.mesh.region.dims dir = some ax ∧ ax < f.mesh.ndim ∧ 2 ≤ f.mesh.nAt ax ∧
+      g.mesh.n = setAt f.mesh.n ax (f.mesh.nAt ax - 1) ∧ g.data.shape = g.mesh.n ∧ g.mesh.ndim = f.mesh.ndim ∧
+      ∀ a, a < f.mesh.ndim →
+        g.mesh.region.lo a = f.mesh.region.lo a + (if a = ax then f.mesh.cellAt a / 2 else 0) ∧
+        g.mesh.region.hi a = f.mesh.region.hi a - (if a = ax then f.mesh.cellAt a / 2 else 0) ∧
+        g.mesh.cellAt a = f.mesh.cellAt a := by
+  obtain ⟨_, _, ax, hax, hmesh, hn, hs, _, _⟩ := neighbourAngle_inv sq acos deg f g dir units h
+  have hl : ax < f.mesh.ndim := by
+    have := indexOf_lt' _ _ _ hax
+    rw [hm.1.2.2.1] at this
+    exact this
+  have h2 : 2 ≤ f.mesh.nAt ax := by
+    have hp := hm.2.2 ax hl
+    by_cases h1 : f.mesh.nAt ax = 1
+    · obtain ⟨e, he⟩ := angleMesh_single f.mesh hm ax hl h1
+      rw [he] at hmesh; cases hmesh
+    · omega
+  obtain ⟨m', hm', _, hgeo, _, hnd⟩ := angleMesh_ok f.mesh hm ax hl h2
+  rw [hmesh] at hm'
+  injection hm' with hm'
+  subst hm'
+  exact ⟨ax, hax, hl, h2, hn, by rw [hs, hn], hnd, hgeo⟩
+
+/-- The angles are unchanged when all vectors are reversed, and when every vector is rescaled by its
+own non-zero factor (hypotheses as in `orientation_scale`); for a uniform field of non-negligible
+vectors every clipped dot product is exactly `1` (angle `acos 1 = 0`). -/
+theorem angle_invariances (sq acos deg : Rat → Rat) (f : Fld) (dir units : String) :
+    neighbourAngle sq acos deg (negF f) dir units = neighbourAngle sq acos deg f dir units ∧
+    (∀ s : List Nat → Rat, (∀ i, s i ≠ 0) →
+      (∀ i, sq (s i * s i * (cellV f i).normSq) = s i * sq (cellV f i).normSq) →
+      (∀ i, isZeroNorm (s i * sq (cellV f i).normSq) = isZeroNorm (sq (cellV f i).normSq)) →
+      neighbourAngle sq acos deg (scaleF s f) dir units = neighbourAngle sq acos deg f dir units) ∧
+    (∀ v, uniformF f v → sq v.normSq * sq v.normSq = v.normSq → isZeroNorm (sq v.normSq) = false →
+      ∀ ax i, nbDot sq f ax i = 1) := by
+  refine ⟨?_, ?_, ?_⟩
+  · unfold neighbourAngle
+    have e : ∀ ax, nbDot sq (negF f) ax = nbDot sq f ax := fun ax => funext fun i => nbDot_negF sq f ax i
+    simp only [e]
+    rfl
+  · intro s hs hsq hz
+    unfold neighbourAngle
+    have e : ∀ ax, nbDot sq (scaleF s f) ax = nbDot sq f ax := fun ax => funext fun i =>
+      nbDot_scaleF sq s f (fun i => orient_smul sq (s i) _ (hs i) (hsq i) (hz i)) ax i
+    simp only [e]
+    rfl
+  · intro v hu hsq hz ax i
+    exact nbDot_uniform sq f v hu hsq hz ax i
+
+/-- `max_neighbouring_cell_angle`: the value of a cell lies in `[0, π]`, dominates the angle to the
+next and to the previous cell along every axis, and is attained (it is `0` or one of those angles);
+the result lives on the field's own mesh, valid everywhere. -/
+theorem max_angle_spec (sq acos deg : Rat → Rat) (pi : Rat) (hpi : 0 ≤ pi)
+    (hacos : ∀ x, 0 ≤ acos x ∧ acos x ≤ pi) (f g : Fld)
+    (h : maxNeighbourAngle sq acos deg f "rad" = .ok g) (i : List Nat) :
+    g.mesh = f.mesh ∧ g.valid.get i = true ∧
+    0 ≤ (g.data.get i).getD 0 0 ∧ (g.data.get i).getD 0 0 ≤ pi ∧
+    (∀ a, a < f.mesh.ndim → i.getD a 0 + 1 < f.mesh.nAt a → acos (nbDot sq f a i) ≤ (g.data.get i).getD 0 0) ∧
+    (∀ a, a < f.mesh.ndim → 1 ≤ i.getD a 0 →
+      acos (nbDot sq f a (setAt i a (i.getD a 0 - 1))) ≤ (g.data.get i).getD 0 0) ∧
+    ((g.data.get i).getD 0 0 = 0 ∨ ∃ d, some d ∈ nbDots sq f i ∧ (g.data.get i).getD 0 0 = acos d) := by
+  obtain ⟨hmesh, _, _, hv, hd⟩ := maxNeighbourAngle_inv sq acos deg f g "rad" h
+  have e : angVal acos deg "rad" = acos := by
+    funext d; unfold angVal; simp
+  rw [hd i, e]
+  simp only [List.getD_cons_zero]
+  refine ⟨hmesh, hv i, (maxOpt_range acos pi hpi hacos _).1, (maxOpt_range acos pi hpi hacos _).2, ?_, ?_, ?_⟩
+  · intro a ha hi
+    exact maxOpt_ge acos _ _ (nbDots_fwd sq f i a ha hi)
+  · intro a ha hi
+    exact maxOpt_ge acos _ _ (nbDots_bwd sq f i a ha hi)
+  · exact maxOpt_attained acos _
+
+/-- The maximum angle is unchanged by a global rotation or reflection of the vectors and by reversal. -/
+theorem max_angle_invariant (sq acos deg : Rat → Rat) (q : M3) (hq : q.IsOrth) (f : Fld) (units : String) :
+    maxNeighbourAngle sq acos deg (rotF q f) units = maxNeighbourAngle sq acos deg f units ∧
+    maxNeighbourAngle sq acos deg (negF f) units = maxNeighbourAngle sq acos deg f units := by
+  constructor
+  · unfold maxNeighbourAngle
+    have e1 : ∀ d, neighbourAngle sq acos deg (rotF q f) d units = neighbourAngle sq acos deg f d units :=
+      fun d => angle_rot_invariant sq acos deg q hq f d units
+    have e : ∀ i, nbDots sq (rotF q f) i = nbDots sq f i := nbDots_rotF sq q hq f
+    simp only [e1, e]
+    rfl
+  · unfold maxNeighbourAngle
+    have e1 : ∀ d, neighbourAngle sq acos deg (negF f) d units = neighbourAngle sq acos deg f d units :=
+      fun d => (angle_invariances sq acos deg f d units).1
+    have e : ∀ i, nbDots sq (negF f) i = nbDots sq f i := nbDots_negF sq f
+    simp only [e1, e]
+    rfl
+
+/-! ## The leaf functions instantiated with the real functions -/
+
+/-- The model's Berg–Lüscher density is the rational case of the density with a leaf valued in an
+arbitrary field of characteristic 0 (`tcdBLAtK`). -/
+theorem bl_density_is_rational_case (Om : Tri → Rat) (o : Fld) (i j : Nat) :
+    tcdBLAt Om o i j = tcdBLAtK (K := Rat) Om o i j :=
+  tcdBLAt_eq_K Om o i j
+
+/-- THE LATTICE DENSITY WITH THE REAL SOLID-ANGLE FORMULA (`2·Im log((1+d₁₂+d₂₃+d₃₁ + i·t)/ρ)/(4π)` over
+ℝ/ℂ, no hypothesis on a leaf): unchanged by a global proper rotation, negated by reversal, zero on
+uniform fields, divided by `λ²` under mesh scaling/translation — every mask, every cell. -/
+theorem bl_real_invariances (sq : Rat → Rat) (f : Fld) (i : List Nat) :
+    (∀ q : M3, q.IsRot → tcdBLReal sq (rotF q f) i = tcdBLReal sq f i) ∧
+    tcdBLReal sq (negF f) i = -tcdBLReal sq f i ∧
+    (∀ v, uniformF f v → tcdBLReal sq f i = 0) ∧
+    (∀ (lam : Rat) (t : List Rat), f.mesh.ndim = 2 →
+      tcdBLReal sq (affF lam t f) i = tcdBLReal sq f i / ((lam : ℝ) * (lam : ℝ))) :=
+  ⟨fun q hq => tcdBLReal_rotF sq q hq f i, tcdBLReal_negF sq f i, fun v hu => tcdBLReal_uniform sq f v hu i,
+    fun lam t h2 => tcdBLReal_affF sq lam t f h2 i⟩
+
+/-- … and under a quarter turn of the sample it takes the source cell's value. -/
+theorem bl_real_quarter_turn (sq : Rat → Rat) (Q : M3) (hQ : Q.IsRot) {f g : Fld} (h : QTurn Q f g) (i j : Nat)
+    (hi : i < f.mesh.nAt 1) (hj : j < f.mesh.nAt 0) :
+    tcdBLReal sq g [i, j] = tcdBLReal sq f [j, f.mesh.nAt 1 - 1 - i] :=
+  tcdBLReal_turn sq Q hQ h i j hi hj
+
+/-- The angle with the real arccosine: for every field, direction and cell, `arccos` of the model's
+clipped dot product lies in `[0, π]`. -/
+theorem angle_range_real (sq : Rat → Rat) (f : Fld) (ax : Nat) (i : List Nat) :
+    0 ≤ Real.arccos ((nbDot sq f ax i : Rat) : ℝ) ∧ Real.arccos ((nbDot sq f ax i : Rat) : ℝ) ≤ Real.pi :=
+  arccos_range _
+
+/-- The homogeneity hypothesis `√(s²x) = s·√x` of the rescaling theorems follows from `sq` being a
+non-negative square root at the two arguments (as the real square root is): the rescaling
+invariance of both densities for positive factors and an exact square root on the occurring norms. -/
+theorem tcd_scale_invariant_exact_sqrt (sq : Rat → Rat) (pi : Rat) (Om : Tri → Rat) (s : List Nat → Rat) (f : Fld)
+    (hs : ∀ i, 0 < s i)
+    (h1 : ∀ i, 0 ≤ sq (cellV f i).normSq ∧ sq (cellV f i).normSq * sq (cellV f i).normSq = (cellV f i).normSq)
+    (h2 : ∀ i, 0 ≤ sq (s i * s i * (cellV f i).normSq) ∧
+      sq (s i * s i * (cellV f i).normSq) * sq (s i * s i * (cellV f i).normSq) = s i * s i * (cellV f i).normSq)
+    (hz : ∀ i, isZeroNorm (s i * sq (cellV f i).normSq) = isZeroNorm (sq (cellV f i).normSq))
+    (m : Method) (h3 : f.nvdim = 3) (hd : f.mesh.ndim = 2) (hm : m ≠ .other) :
+    tcd sq pi Om (scaleF s f) m = tcd sq pi Om f m :=
+  tcd_scale_invariant sq pi Om s f (fun i => (hs i).ne')
+    (fun i => sq_homogeneous_of_exact sq (s i) _ (hs i) (h1 i).1 (h1 i).2 (h2 i).1 (h2 i).2) hz m h3 hd hm
+
+/-! ## The cuboid sum rule, composed -/
+
+/-- Sum rule with the trace hypothesis only where the tensor is defined (the cells of the `2n−1`
+displacement grid). -/
+theorem cuboid_sum_rule_grid (T : NDA (List Rat)) (m : Mesh) (M : Rat)
+    (hT : ∀ j0 j1 j2, j0 < 2 * m.nAt 0 - 1 → j1 < 2 * m.nAt 1 - 1 → j2 < 2 * m.nAt 2 - 1 →
+      (T.get [j0, j1, j2]).getD 0 0 + (T.get [j0, j1, j2]).getD 1 0 + (T.get [j0, j1, j2]).getD 2 0
+      = if j0 = m.nAt 0 - 1 ∧ j1 = m.nAt 1 - 1 ∧ j2 = m.nAt 2 - 1 then -1 else 0)
+    (q0 q1 q2 : Nat) (h0 : q0 < m.nAt 0) (h1 : q1 < m.nAt 1) (h2 : q2 < m.nAt 2) :
+    linConv T (uniF m M 0) 0 [q0, q1, q2] + linConv T (uniF m M 1) 1 [q0, q1, q2]
+      + linConv T (uniF m M 2) 2 [q0, q1, q2] = -M :=
+  cuboid_sum_inrange T m M hT q0 q1 q2 h0 h1 h2
+
+/-- THE SUM RULE THROUGH `demag_field` AND THE NEWELL TENSOR.  For the model's tensor of
+`demag_tensor(mesh)` evaluated with any rational leaf functions satisfying the arctangent identity
+(`tensorQ`), `demag_field` accepts the three uniformly magnetised fields (`M` along x, y, z) of a
+well-formed 3-d mesh with axes `x, y, z`, and at EVERY cell the three field components along the
+respective magnetisation add up to `−M`; hence so do their sums over all cells, i.e. the three mean
+demagnetising field components sum to `−M` — all cuboid aspect ratios, all cell edges. -/
+theorem demag_field_cuboid_sum (asinh atan sqrt : Rat → Rat) (pi : Rat) (hpi : pi ≠ 0) (m : Mesh) (hm : m.Inv)
+    (h3 : m.ndim = 3) (hdims : m.region.dims = ["x", "y", "z"]) (M : Rat)
+    (hat : ∀ a b c : Rat, 0 < a → 0 < b → 0 < c →
+      atan (b * c / (a * sqrt (a ^ 2 + b ^ 2 + c ^ 2))) + atan (c * a / (b * sqrt (a ^ 2 + b ^ 2 + c ^ 2)))
+        + atan (a * b / (c * sqrt (a ^ 2 + b ^ 2 + c ^ 2))) = pi / 2) :
+    ∃ gx gy gz, demagField (tensorQ asinh atan sqrt pi m) (uniF m M 0) = .ok gx ∧
+      demagField (tensorQ asinh atan sqrt pi m) (uniF m M 1) = .ok gy ∧
+      demagField (tensorQ asinh atan sqrt pi m) (uniF m M 2) = .ok gz ∧
+      (∀ q0 q1 q2, q0 < m.nAt 0 → q1 < m.nAt 1 → q2 < m.nAt 2 →
+        (gx.data.get [q0, q1, q2]).getD 0 0 + (gy.data.get [q0, q1, q2]).getD 1 0 + (gz.data.get [q0, q1, q2]).getD 2 0 = -M) ∧
+      sum3 (m.nAt 0) (m.nAt 1) (m.nAt 2) (fun q0 q1 q2 => (gx.data.get [q0, q1, q2]).getD 0 0)
+        + sum3 (m.nAt 0) (m.nAt 1) (m.nAt 2) (fun q0 q1 q2 => (gy.data.get [q0, q1, q2]).getD 1 0)
+        + sum3 (m.nAt 0) (m.nAt 1) (m.nAt 2) (fun q0 q1 q2 => (gz.data.get [q0, q1, q2]).getD 2 0)
+        = -M * ((m.nAt 0 : Rat) * ((m.nAt 1 : Rat) * (m.nAt 2 : Rat))) := by
+  obtain ⟨gx, hx, _, _, vx⟩ := demagField_uniF (tensorQ asinh atan sqrt pi m) m M 0 h3 hdims rfl
+  obtain ⟨gy, hy, _, _, vy⟩ := demagField_uniF (tensorQ asinh atan sqrt pi m) m M 1 h3 hdims rfl
+  obtain ⟨gz, hz, _, _, vz⟩ := demagField_uniF (tensorQ asinh atan sqrt pi m) m M 2 h3 hdims rfl
+  have cell : ∀ q0 q1 q2, q0 < m.nAt 0 → q1 < m.nAt 1 → q2 < m.nAt 2 →
+      (gx.data.get [q0, q1, q2]).getD 0 0 + (gy.data.get [q0, q1, q2]).getD 1 0 + (gz.data.get [q0, q1, q2]).getD 2 0 = -M := by
+    intro q0 q1 q2 h0 h1 h2
+    rw [vx 0 (by omega) q0 q1 q2 h0 h1 h2, vy 1 (by omega) q0 q1 q2 h0 h1 h2, vz 2 (by omega) q0 q1 q2 h0 h1 h2]
+    exact cuboid_sum_inrange _ m M (fun j0 j1 j2 b0 b1 b2 => tensorQ_trace asinh atan sqrt pi hpi m hm h3 hat j0 j1 j2 b0 b1 b2)
+      q0 q1 q2 h0 h1 h2
+  refine ⟨gx, gy, gz, hx, hy, hz, cell, ?_⟩
+  rw [← sum3_add, ← sum3_add, sum3_congr _ _ _ _ (fun _ _ _ => -M) (fun q0 q1 q2 h0 h1 h2 => cell q0 q1 q2 h0 h1 h2),
+    sum3_const]
+  ring
+
+/-- leaf functions with the arctangent identity exist (`atan ≡ 1/2`, `pi = 3`) -/
+example : ∀ a b c : Rat, 0 < a → 0 < b → 0 < c →
+    (fun _ : Rat => (1 : Rat) / 2) (b * c / (a * (fun x : Rat => x) (a ^ 2 + b ^ 2 + c ^ 2)))
+      + (fun _ : Rat => (1 : Rat) / 2) (c * a / (b * (fun x : Rat => x) (a ^ 2 + b ^ 2 + c ^ 2)))
+      + (fun _ : Rat => (1 : Rat) / 2) (a * b / (c * (fun x : Rat => x) (a ^ 2 + b ^ 2 + c ^ 2))) = (3 : Rat) / 2 := by
+  intros; norm_num
+
+/-! ## Acceptance and further refusals -/
+
+/-- Every 3-component field on a 2-d mesh is accepted by both density methods and by
+`topological_charge`; every well-formed 3-d mesh is accepted by both tensor builders, which return
+the same tensor mesh. -/
+theorem tools_accept (sq : Rat → Rat) (pi : Rat) (Om : Tri → Rat) :
+    (∀ (f : Fld) (m : Method), f.nvdim = 3 → f.mesh.ndim = 2 → m ≠ .other →
+      (∃ q, tcd sq pi Om f m = .ok q ∧ q.mesh = f.mesh ∧ q.valid = f.valid ∧ q.nvdim = 1) ∧
+      ∀ a, ∃ c, charge sq pi Om f m a = .ok c) ∧
+    (∀ (m : Mesh) (fb : Bool), m.Inv → m.ndim = 3 →
+      ∃ tm g, demagTensor fb pi m = .ok (tm, g) ∧ tensorMesh m = .ok tm ∧ tm.n = tensorShape m ∧ tm.Inv) := by
+  constructor
+  · intro f m h3 h2 hm
+    have ht := tcd_succeeds sq pi Om f m h3 h2 hm
+    refine ⟨⟨_, ht, rfl, rfl, rfl⟩, fun a => ⟨_, charge_of_tcd sq pi Om f _ m a ht⟩⟩
+  · intro m fb hm h3
+    obtain ⟨tm, htm, _, _⟩ := tensorMesh_ok m hm
+    obtain ⟨hi, hn⟩ := tensorMesh_inv m tm hm h3 htm
+    refine ⟨tm, (if fb then tensorFld pi tm else tensorArr pi m), ?_, htm, hn, hi⟩
+    unfold demagTensor
+    rw [if_neg (by simp [h3]), htm]
+
+/-- The demagnetisation tools refuse what they cannot handle: a mesh that is not 3-d (both tensor
+builders); for `demag_field` a magnetisation on a mesh that is not 3-d, with other than 3
+components, with axes not named `x, y, z`, or a tensor of the wrong shape. -/
+theorem demag_refusals (pi : Rat) (T : NDA (List Rat)) (f : Fld) :
+    (∀ (m : Mesh) (fb : Bool), m.ndim ≠ 3 → ∃ e, demagTensor fb pi m = .error e) ∧
+    ((f.mesh.ndim ≠ 3 ∨ f.nvdim ≠ 3 ∨ f.mesh.region.dims ≠ ["x", "y", "z"] ∨
+      T.shape ≠ [2 * f.mesh.nAt 0 - 1, 2 * f.mesh.nAt 1 - 1, 2 * f.mesh.nAt 2 - 1]) →
+      ∃ e, demagField T f = .error e) := by
+  constructor
+  · intro m fb hm
+    unfold demagTensor
+    rw [if_pos hm]
+    exact ⟨_, rfl⟩
+  · intro hc
+    unfold demagField
+    split
+    · exact ⟨_, rfl⟩
+    · split
+      · exact ⟨_, rfl⟩
+      · split
+        · exact ⟨_, rfl⟩
+        · split
+          · exact ⟨_, rfl⟩
+          · rename_i a b c d
+            rcases hc with hc | hc | hc | hc
+            · exact absurd hc a
+            · exact absurd hc b
+            · exact absurd hc c
+            · exact absurd hc d
 
 end DFV.C19
